@@ -181,6 +181,9 @@ def run_property(prop, tier, jobs, C, extra=None):
                 'pyvc (symbolic executor, builtin models, SMT encoding) written for this task',
                 'z3 4.x/5.1 python API (z3-solver wheel)',
                 'library contracts marked trusted: ' + ', '.join(trusted_list(C)),
+                'ASSUMED contracts of repository functions whose bodies are not (yet) verified against them '
+                '(callers are checked against these contracts): '
+                + ', '.join(sorted(q for q, c in C.CONTRACTS.items() if not c.verify and not c.trusted)),
                 'typing assumption T4 (field/parameter types in contracts/classes.py)',
             ],
             'functions_under_contract': funcs,
